@@ -79,13 +79,13 @@ type LOp struct {
 }
 
 type CaseA struct {
-	Ops []LOp `json:"ops"`
+	Base string `json:"base,omitempty"` // base of the group of related names the history uses (evidence labels only)
+	Ops  []LOp  `json:"ops"`
 }
 
 const svcKind = "SvcProto" // the service-defined listener kind registered by the fixture's service script
 
 var (
-	namesA   = []string{"a", "b", "c"}
 	uasA     = []string{"", "UA-one", "UA-two"}
 	urisA    = [][]string{nil, {"/x"}, {"/x", "/y"}, {"/z"}}
 	headersA = [][]string{nil, {"X-K: v1"}, {"X-K: v2"}, {"X-K: v1", "X-Q: q"}}
@@ -120,7 +120,7 @@ func genRemoveConns(t *rapid.T, op *LOp) {
 }
 
 // genOverlap draws the second operator's request for a removal of the HTTP listener name.
-func genOverlap(t *rapid.T, name string, pred map[string]string) *LOp {
+func genOverlap(t *rapid.T, name string, pred map[string]string, names []string) *LOp {
 	o := &LOp{Name: name}
 	switch rapid.SampledFrom([]string{"add-same", "add-same", "add-same", "add-other", "edit", "remove", "remove"}).Draw(t, "overlap") {
 	case "add-same", "add-other":
@@ -136,7 +136,7 @@ func genOverlap(t *rapid.T, name string, pred map[string]string) *LOp {
 			o.SvcReply = "ok"
 		}
 		if rapid.IntRange(0, 3).Draw(t, "other") == 0 {
-			for _, n := range append(append([]string(nil), namesA...), "d") {
+			for _, n := range append(append([]string(nil), names...), name+"-2") {
 				if _, taken := pred[n]; !taken && n != name {
 					o.Name = n
 					break
@@ -155,14 +155,14 @@ func genOverlap(t *rapid.T, name string, pred map[string]string) *LOp {
 // genOps draws n operations; pred is the generator's own prediction of name -> kind (used
 // only to steer, never by the oracle).  httpRemovals is how many removals of HTTP
 // listeners may still be drawn.
-func genOps(t *rapid.T, n int, pred map[string]string, httpRemovals *int) []LOp {
+func genOps(t *rapid.T, n int, pred map[string]string, httpRemovals *int, names []string) []LOp {
 	var ops []LOp
 	for i := 0; i < n; i++ {
 		what := rapid.SampledFrom([]string{"add", "add", "add", "edit", "edit", "remove", "remove"}).Draw(t, "op")
-		pool := append([]string(nil), namesA...)
+		pool := append([]string(nil), names...)
 		if what != "add" {
 			// edits and removals mostly hit names that (are predicted to) exist
-			for _, n := range namesA {
+			for _, n := range names {
 				if _, ok := pred[n]; ok {
 					pool = append(pool, n, n)
 				}
@@ -208,18 +208,20 @@ func genOps(t *rapid.T, n int, pred map[string]string, httpRemovals *int) []LOp 
 
 func genA(t *rapid.T) CaseA {
 	zero := 0
+	base, names := genNameGroup(t, "names")
 	n := rapid.IntRange(1, 10).Draw(t, "n")
-	return CaseA{Ops: genOps(t, n, map[string]string{}, &zero)}
+	return CaseA{Base: base, Ops: genOps(t, n, map[string]string{}, &zero, names)}
 }
 
 func genB(t *rapid.T) CaseA {
 	pred := map[string]string{}
+	base, names := genNameGroup(t, "names")
 	left := rapid.IntRange(0, 1).Draw(t, "extra-http-removals")
 	none := 0
 	var ops []LOp
-	ops = append(ops, genOps(t, rapid.IntRange(0, 3).Draw(t, "n1"), pred, &none)...)
+	ops = append(ops, genOps(t, rapid.IntRange(0, 3).Draw(t, "n1"), pred, &none, names)...)
 	// the forced one: make sure some name is an HTTP listener, use it, remove it
-	name := rapid.SampledFrom(namesA).Draw(t, "victim")
+	name := rapid.SampledFrom(names).Draw(t, "victim")
 	if pred[name] != "http" {
 		if _, ok := pred[name]; ok {
 			ops = append(ops, LOp{Op: "remove", Name: name})
@@ -234,11 +236,11 @@ func genB(t *rapid.T) CaseA {
 		ops = append(ops, add)
 		pred[name] = "http"
 	}
-	ops = append(ops, genOps(t, rapid.IntRange(0, 2).Draw(t, "n2"), pred, &none)...)
+	ops = append(ops, genOps(t, rapid.IntRange(0, 2).Draw(t, "n2"), pred, &none, names)...)
 	if pred[name] == "http" {
 		rm := LOp{Op: "remove", Name: name}
 		if rapid.Bool().Draw(t, "with-overlap") {
-			rm.Overlap = genOverlap(t, name, pred)
+			rm.Overlap = genOverlap(t, name, pred, names)
 		} else {
 			genRemoveConns(t, &rm)
 		}
@@ -258,8 +260,8 @@ func genB(t *rapid.T) CaseA {
 			pred[name] = re.Kind
 		}
 	}
-	ops = append(ops, genOps(t, rapid.IntRange(0, 4).Draw(t, "n3"), pred, &left)...)
-	return CaseA{Ops: ops}
+	ops = append(ops, genOps(t, rapid.IntRange(0, 4).Draw(t, "n3"), pred, &left, names)...)
+	return CaseA{Base: base, Ops: ops}
 }
 
 // ---------------------------------------------------------------------------- reference side
@@ -715,7 +717,12 @@ func checkA(c CaseA) *core.Violation {
 				a.port = w.busyP
 			case op.Port == "same":
 				a.port = w.busyP
-				for _, n := range namesA {
+				var ns []string
+				for n := range model {
+					ns = append(ns, n)
+				}
+				sort.Strings(ns)
+				for _, n := range ns {
 					if e := model[n]; e != nil && e.kind == "http" && e.active && e.port != "" {
 						a.port = e.port
 						break
@@ -1073,7 +1080,7 @@ func checkA(c CaseA) *core.Violation {
 func classifyA(c CaseA) core.Class {
 	var cl core.Class
 	pred := map[string]string{}
-	dup, unknown, failed, httpRm, stale, unusual, inflight, overlap := 0, 0, 0, 0, 0, 0, 0, 0
+	dup, unknown, failed, httpRm, stale, unusual, inflight, overlap, related := 0, 0, 0, 0, 0, 0, 0, 0, 0
 	kinds := map[string]bool{}
 	for _, op := range c.Ops {
 		k, present := pred[op.Name]
@@ -1085,6 +1092,16 @@ func classifyA(c CaseA) core.Class {
 				dup++
 				cl.Labels = append(cl.Labels, "add-duplicate:"+k+"<-"+op.Kind)
 			} else {
+				cl.Labels = append(cl.Labels, "name-class:"+classOfName(c.Base, op.Name))
+				var others []string
+				for o := range pred {
+					others = append(others, o)
+				}
+				sort.Strings(others)
+				for _, o := range others {
+					cl.Labels = append(cl.Labels, relationLabel(c.Base, op.Name, o))
+					related++
+				}
 				pred[op.Name] = op.Kind
 				if op.Kind == "http" && (op.Port == "busy" || op.Port == "same") {
 					failed++
@@ -1173,7 +1190,7 @@ func classifyA(c CaseA) core.Class {
 		ks = append(ks, k)
 	}
 	sort.Strings(ks)
-	cl.Fingerprint = fmt.Sprintf("dup=%d|unk=%d|fail=%d|httprm=%d|stale=%d|emptyfield=%d|inflightrm=%d|overlap=%d|kinds=%s", b(dup), b(unknown), b(failed), b(httpRm), b(stale), b(unusual), b(inflight), b(overlap), strings.Join(ks, "+"))
+	cl.Fingerprint = fmt.Sprintf("dup=%d|unk=%d|fail=%d|httprm=%d|stale=%d|emptyfield=%d|inflightrm=%d|overlap=%d|relatednames=%d|kinds=%s", b(dup), b(unknown), b(failed), b(httpRm), b(stale), b(unusual), b(inflight), b(overlap), b(related), strings.Join(ks, "+"))
 	return cl
 }
 
